@@ -226,3 +226,77 @@ def zm_setup(scheme, nf_ff):
         return tuple(k + 4 <= nf_ff for k in range(3)), nf_ff
     # FONLL: exactly one massive flavour nf_ff+1
     return tuple(not (k + 4 == nf_ff + 1) for k in range(3)), nf_ff
+
+
+# ---------------------------------------------------------------------------------------------
+# running the real Combiner
+# ---------------------------------------------------------------------------------------------
+
+M2HQ = (2.0, 20.0, 30000.0)
+
+
+def kernel_sig(k):
+    """Identity of the mathematical object a Kernel multiplies: class, nf, masses, order window."""
+    c = k.coeff
+    masses = []
+    for a in ("m2hq", "m1sq", "m2sq"):
+        if hasattr(c, a):
+            v = getattr(c, a)
+            masses.append((a, str(getattr(v, "const", v)) if hasattr(v, "const") else float(v)))
+    extra = getattr(c, "n3lo_cf_variation", None)
+    return (f"{type(c).__module__.split('coefficient_functions.')[-1]}.{type(c).__qualname__}", c.nf, tuple(masses),
+            k.min_order, k.max_order, extra)
+
+
+def linear_form(kernels_list):
+    """Formal linear form sum_k sum_p w_p e_p (x) K_sig as a dict (sig, parton) -> weight."""
+    form = {}
+    for k in kernels_list:
+        sig = kernel_sig(k)
+        for p, w in k.partons.items():
+            form[(sig, p)] = form.get((sig, p), 0) + w
+    return form
+
+
+class generic_drop_empty:
+    """Combiner.drop_empty (weight != 0) runs under the 'generic point' decision policy."""
+
+    def __enter__(self):
+        import yadism.coefficient_functions as cf
+        from yv.engine import real
+
+        self._cf = cf
+        self._old = cf.Combiner.__dict__["drop_empty"]
+        orig = cf.Combiner.drop_empty
+
+        def drop_empty(full):
+            ctx = real._CUR[0]
+            ex = ctx.explorer if ctx is not None else None
+            if ex is None:
+                return orig(full)
+            with ex.policy("generic"):
+                return orig(full)
+
+        cf.Combiner.drop_empty = staticmethod(drop_empty)
+        return self
+
+    def __exit__(self, *a):
+        self._cf.Combiner.drop_empty = self._old
+
+
+def run_combiner(P, *, obs, process, pid, Q2, scheme="ZM-VFNS", nf=3, ZMq=(True, True, True), pto=0, pto_evol=0,
+                 fonllparts="full", target=None, x=0.1, m2hq=M2HQ, nc_pos=None, stage="elems", n3lo_cf_variation=0):
+    """Kernels produced by the real Combiner for one configuration cell (nf fixed through cm.fixed_nf)."""
+    import yadism.coefficient_functions as cf
+
+    cc = make_coupling(P, process, pid, nc_pos)
+    cfg = make_configs(cc, pto=pto, pto_evol=pto_evol, scheme=scheme, nf_ff=nf, ZMq=ZMq, m2hq=m2hq, threshold=nf,
+                       target=target, fonllparts=fonllparts, n3lo_cf_variation=n3lo_cf_variation)
+    esf = make_esf(cfg, obs, x, Q2)
+    comb = cf.Combiner(esf)
+    if stage == "collect":
+        out = []
+        for comp in comb.collect():
+            out.extend(comp)
+        return out
+    return comb.collect_elems()
